@@ -66,7 +66,10 @@ func c19Scenario(c *choice.Ctx, rep *report.R, depth int) {
 		ttlOf[serial] = ttl
 		uq.Reply(env.Answer(uq.Msg, serial, ttl).Encode(false))
 	}
-	// initial fetch per group at t=0.3 (ttl 20 => lifetime 20 s, last quarter starts at 15 s)
+	// initial fetch per group at t=0.3: ttl 20 (lifetime 20 s, last quarter starts at 15 s, the exploration starts at 15.5 s) or
+	// ttl 40 (last quarter starts at 30 s, the exploration starts at 30.9 s and has 9.4 s of lifetime left: room for a refresh
+	// that stays pending for most of its own 6 s deadline)
+	ttl0 := []uint32{20, 40}[c.Choose(2, "initial-ttl")]
 	hsleep(300 * time.Millisecond)
 	groupSerial := map[string]byte{}
 	for _, cl := range []*client{clients[0], clients[2]} {
@@ -77,22 +80,28 @@ func c19Scenario(c *choice.Ctx, rep *report.R, depth int) {
 			fail("setup", "initial fetch")
 			return
 		}
-		reply(p[0], 20)
+		reply(p[0], ttl0)
 		groupSerial[cl.group] = serial
 		wait()
 		cl.nresp++
 	}
 	fetchedAt := time.Now()
-	hsleep(15500 * time.Millisecond) // 15.5 s: inside the last quarter
+	if ttl0 == 20 {
+		hsleep(15500 * time.Millisecond) // 15.5 s: inside the last quarter
+	} else {
+		hsleep(30900 * time.Millisecond)
+	}
 	wait()
+	trace = append(trace, fmt.Sprintf("ttl%d", ttl0))
 	// expected state per group
 	type gstate struct {
 		serial    byte // entry currently expected to be served
 		storedAt  time.Time
 		ttl       uint32
-		refreshes int // completed refreshes
+		refreshes int           // completed refreshes
+		either    map[byte]bool // after a miss answered together with a pending refresh: the serials that may be cached
 	}
-	gs := map[string]*gstate{"g1": {groupSerial["g1"], fetchedAt, 20, 0}, "g2": {groupSerial["g2"], fetchedAt, 20, 0}}
+	gs := map[string]*gstate{"g1": {groupSerial["g1"], fetchedAt, ttl0, 0, nil}, "g2": {groupSerial["g2"], fetchedAt, ttl0, 0, nil}}
 	ecsGroup := func(uq *upQuery) string {
 		if uq.Msg == nil || len(uq.Msg.OPTs()) != 1 {
 			return "?"
@@ -130,9 +139,15 @@ func c19Scenario(c *choice.Ctx, rep *report.R, depth int) {
 						fail("hit-delayed", fmt.Sprintf("query from %s while the entry has more than 1 s to live was not answered at once (it waits for the upstream)", cl.name))
 					}
 					// an expired entry: this became an ordinary miss; answer it to keep going
+					st.either = nil
 					for _, p := range u.Pending() {
 						if ecsGroup(p) == cl.group {
+							// (a refresh that is still pending is answered too: its store and the miss's store race, either entry may stay)
+							if st.either == nil {
+								st.either = map[byte]bool{}
+							}
 							reply(p, 20)
+							st.either[serial] = true
 							st.serial, st.storedAt, st.ttl = serial, time.Now(), 20
 						}
 					}
@@ -144,6 +159,9 @@ func c19Scenario(c *choice.Ctx, rep *report.R, depth int) {
 				if !ok || len(r.An) != 1 {
 					fail("bad-hit", "cached response has no answer")
 					return
+				}
+				if alive && s != st.serial && st.either[s] {
+					st.serial = s // the other of two racing stores stayed
 				}
 				if alive && s != st.serial {
 					fail("wrong-entry", fmt.Sprintf("hit from %s served serial %d, expected the entry with serial %d (group %s, %d refreshes done)", cl.name, s, st.serial, cl.group, st.refreshes))
@@ -166,7 +184,14 @@ func c19Scenario(c *choice.Ctx, rep *report.R, depth int) {
 			menu = append(menu, event{name: fmt.Sprintf("refresh-ok(%s)", g), do: func() {
 				reply(p, 40)
 				st := gs[g]
-				st.serial, st.storedAt, st.ttl = serial, time.Now(), 40
+				st.serial, st.storedAt, st.ttl, st.either = serial, time.Now(), 40, nil
+				st.refreshes++
+			}})
+			// the answer's ttl is shorter than what the old entry has left: it replaces the entry all the same
+			menu = append(menu, event{name: fmt.Sprintf("refresh-ok-ttl3(%s)", g), do: func() {
+				reply(p, 3)
+				st := gs[g]
+				st.serial, st.storedAt, st.ttl, st.either = serial, time.Now(), 3, nil
 				st.refreshes++
 			}})
 			menu = append(menu, event{name: fmt.Sprintf("refresh-servfail(%s)", g), fault: true, do: func() {
@@ -184,6 +209,9 @@ func c19Scenario(c *choice.Ctx, rep *report.R, depth int) {
 			}})
 		}
 		menu = append(menu, event{name: "advance1s", do: func() { hsleep(time.Second) }})
+		if ttl0 == 40 {
+			menu = append(menu, event{name: "advance5.5s", do: func() { hsleep(5500 * time.Millisecond) }})
+		}
 		ev := pickEvent(c, menu)
 		if ev == nil {
 			break
@@ -295,8 +323,8 @@ func TestVerifC19(t *testing.T) {
 	defer rep.Write()
 	depth := report.ParamInt("DEPTH", 6)
 	bound := report.ParamInt("FAULTS", 2)
-	rep.Rule = fmt.Sprintf("E3: real router + otter cache + ip marker (2 groups) + ECS, scripted upstream, exact virtual clock; entries for both groups stored with ttl 20, clock advanced to 15.5 s (last quarter); then all sequences of length <=%d over "+
-		"{hit from client g1a / g1b (same group) / g2, refresh answered with ttl 40, refresh answered SERVFAIL / REFUSED / NOTIMP, refresh fails, advance 1 s} with <=%d failed refreshes; oracle after every event: a hit on an entry with >1 s to live is answered in the same reaction, "+
+	rep.Rule = fmt.Sprintf("E3: real router + otter cache + ip marker (2 groups) + ECS, scripted upstream, exact virtual clock; entries for both groups stored with ttl 20 / 40, clock advanced to 15.5 s / 30.9 s (last quarter); then all sequences of length <=%d over "+
+		"{hit from client g1a / g1b (same group) / g2, refresh answered with ttl 40, refresh answered with ttl 3 (shorter than the old entry's remaining lifetime), refresh answered SERVFAIL / REFUSED / NOTIMP, refresh fails, advance 1 s, advance 5.5 s (ttl 40 only: close to the refresh's own 6 s deadline)} with <=%d failed refreshes; oracle after every event: a hit on an entry with >1 s to live is answered in the same reaction, "+
 		"never two refresh queries in flight per (question, group), hits show the renewed entry after a successful refresh and the old one after a failed refresh, ttl consistent with the entry's age", depth, bound, report.ParamInt("MANYKEYS", 100))
 	bubble(t, func() {
 		st := runExplore(t, rep, bound, func(c *choice.Ctx) { c19Scenario(c, rep, depth) })
